@@ -118,6 +118,38 @@ func runC09(c *mon.Ctx) {
 					for i := 0; i < 3; i++ {
 						cmp("insertion-order", gen.Shuffled(mr, ac.state), ac.ev)
 					}
+					if sameRoom(ac.state) && ac.kind != "create" && len(worlds) > 1 {
+						// an event of ANOTHER room for a slot the state already fills, supplied after (it replaces the
+						// room's own event in the provider) or before it (it is replaced): auth events of two rooms never
+						// authorise anything, in whichever order they arrive
+						ow := worlds[(mr.Intn(len(worlds)-1)+1+indexOfWorld(worlds, w))%len(worlds)]
+						var foreign gmsl.PDU
+						for _, p := range gen.Shuffled(mr, ac.state) {
+							switch p.Type() {
+							case "m.room.power_levels":
+								foreign = gen.Pick(mr, ow.pls)
+							case "m.room.join_rules":
+								foreign = ow.jrs[gen.Pick(mr, []string{"public", "invite", "restricted"})]
+							case "m.room.member":
+								foreign = ow.members[[2]string{*p.StateKey(), gen.Pick(mr, []string{"join", "invite"})}]
+							}
+							if foreign != nil {
+								break
+							}
+						}
+						if foreign != nil && foreign.RoomID().String() != w.roomID {
+							for name, st := range map[string][]gmsl.PDU{
+								"replacing-the-room's-own": append(append([]gmsl.PDU{}, ac.state...), foreign),
+								"replaced-by-the-room's-own": append([]gmsl.PDU{foreign}, ac.state...),
+							} {
+								v, pan := freshVerdict(st, ac.ev)
+								c.Count("relation|foreign-room-event-in-filled-slot")
+								if pan == "" && v != "reject" {
+									c.Failf("foreign-room-auth-event:accepted:"+name, "v%s %s event is allowed although the provider was given %s (%s %q) of room %s, %s\nevent: %s\nstate as supplied: %v", ver, ac.kind, foreign.EventID(), foreign.Type(), *foreign.StateKey(), foreign.RoomID().String(), name, ac.ev.JSON(), describeState(st))
+								}
+							}
+						}
+					}
 					if sameRoom(ac.state) {
 						needed := map[gmsl.StateKeyTuple]bool{}
 						for _, tup := range gmsl.StateNeededForAuth([]gmsl.PDU{ac.ev}).Tuples() {
@@ -258,6 +290,37 @@ func runC09(c *mon.Ctx) {
 					}
 				}
 				steps = append(steps, step{ac.state, ac.ev, ac.kind, cw})
+				if sr.Chance(0.08) && len(cw.pls) > 0 {
+					// two power-levels events judged against the SAME power-levels event one after the other: one from the
+					// creator, one from the most powerful other user (what the first looks at must not leak into the second)
+					x := gen.Pick(sr, cw.pls)
+					cur := ref.MustParse(x.Content())
+					st := []gmsl.PDU{cw.create, x}
+					for _, u := range authUsers {
+						st = append(st, cw.members[[2]string{u, "join"}])
+					}
+					creators := []string{authUsers[0]}
+					if cw.variant == "federated-explicit" && cw.t.PrivCreators {
+						creators = append(creators, authUsers[1])
+					}
+					eff := parseEff(cur)
+					admin, best := "", int64(-1<<62)
+					for _, u := range authUsers[len(creators):] {
+						if l := eff.user(u); l > best {
+							admin, best = u, l
+						}
+					}
+					for _, sender := range []string{gen.Pick(sr, creators), admin} {
+						content := cur.Clone()
+						if sr.Chance(0.5) {
+							content = proposePL(sr, cw.t, cur, creators)
+						}
+						if ev, e := cw.build("m.room.power_levels", strp(""), sender, content, nil, ""); e == nil {
+							steps = append(steps, step{st, ev, "power-levels", cw})
+						}
+					}
+					interesting = true
+				}
 				if ac.kind == "restricted-join" {
 					interesting = true
 				}
@@ -353,6 +416,15 @@ func runC09(c *mon.Ctx) {
 	c.Floor("relation|needed-state-only", 300)
 	c.Floor("relation|add-auth-events", 200)
 	c.Floor("reuse_evaluations", 2000)
+}
+
+func indexOfWorld(ws []*world, w *world) int {
+	for i, x := range ws {
+		if x == w {
+			return i
+		}
+	}
+	return 0
 }
 
 // reuseSig names the shape of a reuse divergence.
